@@ -1,10 +1,11 @@
 /-
 Driver only (never imported by a theorem): `FloatOps` instantiated with the host's native binary32 /
 binary64 arithmetic, so that the generated model can be *run* and compared with the implementation.
-Fused multiply-add is computed through the wider type (exact for the exactly-representable data the
-correspondence feeds to fused operations); the `*_algebraic` variants are the plain operations.
+Fused multiply-add is the exact software implementation of `Driver/SoftFloat.lean`; the `*_algebraic` variants are
+the plain operations.
 -/
 import CfavmlModel.Prim.Exec
+import CfavmlModel.Driver.SoftFloat
 
 namespace Cfavml.Driver
 
@@ -34,7 +35,7 @@ def nativeFloatOps : FloatOps where
   sub32 := fun a b => b32 (f32 a - f32 b)
   mul32 := fun a b => b32 (f32 a * f32 b)
   div32 := fun a b => b32 (f32 a / f32 b)
-  fma32 := fun a b c => b32 ((f32 a).toFloat * (f32 b).toFloat + (f32 c).toFloat).toFloat32
+  fma32 := Soft.fma32
   sqrt32 := fun a => b32 (f32 a).sqrt
   lt32 := fun a b => f32 a < f32 b
   le32 := fun a b => f32 a ≤ f32 b
@@ -49,7 +50,7 @@ def nativeFloatOps : FloatOps where
   sub64 := fun a b => b64 (f64 a - f64 b)
   mul64 := fun a b => b64 (f64 a * f64 b)
   div64 := fun a b => b64 (f64 a / f64 b)
-  fma64 := fun a b c => b64 (f64 a * f64 b + f64 c)
+  fma64 := Soft.fma64
   sqrt64 := fun a => b64 (f64 a).sqrt
   lt64 := fun a b => f64 a < f64 b
   le64 := fun a b => f64 a ≤ f64 b
